@@ -8,7 +8,6 @@ family prefix + pump^n + kill, which checks/c07.py measures on the real code.
 """
 from __future__ import annotations
 import hashlib
-import os
 import re
 import re._parser as sp
 import re._casefix as _cf
@@ -423,7 +422,7 @@ def compile_automaton(tree, flags, name='', edge_limit=400000):
         route_cache[q] = out
         return out
 
-    def apply(obs, c, allowed_next, strict_eof=False):
+    def apply(obs, c, allowed_next):
         """Consume class c (or K = end of input) under look-ahead obligations `obs`.
         Returns the constraint on the following character, or None if c is not possible."""
         nxt = allowed_next
@@ -474,7 +473,6 @@ def compile_automaton(tree, flags, name='', edge_limit=400000):
         i += 1
         edges = []
         acc_eof = False
-        acc_all = True
         acc_by = set()
         for z, route, obs in routes(q):
             if z == end:
